@@ -63,8 +63,8 @@ type KDC struct {
 	TicketLifetime  time.Duration
 	ServiceLifetime time.Duration // lifetime of service tickets (0 = TicketLifetime)
 	RenewLifetime   time.Duration
-	Backdate        time.Duration // initial tickets carry an authtime/starttime this far in the past
-	Referrals       map[string]string // service host suffix -> next realm (referral TGT krbtgt/NEXT@Realm)
+	Backdate        time.Duration                            // initial tickets carry an authtime/starttime this far in the past
+	Referrals       map[string]string                        // service host suffix -> next realm (referral TGT krbtgt/NEXT@Realm)
 	CrossKeys       map[string]map[int32]types.EncryptionKey // realm -> keys of krbtgt/realm@Realm
 	Issues          []Issue
 	Requests        []Request
@@ -187,6 +187,9 @@ func (k *KDC) lifetimes(now time.Time, till, rtime time.Time, renewable bool) (e
 
 // Handle answers one request.
 func (k *KDC) Handle(req []byte) []byte {
+	if ok, _ := StrictDER(req); !ok && len(req) > 0 && (req[0] == 0x6a || req[0] == 0x6c) {
+		return krbErr(k.Realm, types.PrincipalName{}, 60, nil) // the request itself must be DER with KerberosTime in Z form
+	}
 	if len(req) < 2 {
 		return nil
 	}
@@ -265,6 +268,9 @@ func (k *KDC) handleAS(raw []byte) []byte {
 		if err != nil {
 			ed2, _ := asn1.Marshal(info)
 			return krbErr(k.Realm, sname, 24, ed2)
+		}
+		if ok, _ := StrictDER(b); !ok {
+			return krbErr(k.Realm, sname, 60, nil) // a conformant KDC cannot read a non-DER timestamp
 		}
 		var pts types.PAEncTSEnc
 		if err := pts.Unmarshal(b); err != nil {
@@ -400,6 +406,9 @@ func (k *KDC) handleTGS(raw []byte) []byte {
 	ab, err := crypto.DecryptEncPart(ap.EncryptedAuthenticator, tgt.Key, 7)
 	if err != nil {
 		return krbErr(k.Realm, sname, 31, nil)
+	}
+	if ok, _ := StrictDER(ab); !ok {
+		return krbErr(k.Realm, sname, 60, nil) // a conformant KDC cannot read a non-DER authenticator
 	}
 	var au types.Authenticator
 	if err := au.Unmarshal(ab); err != nil {
